@@ -133,3 +133,13 @@ mod test {
         assert_parse!(Http, "OPTIONS", "http://[0:0:0:0:0:0:0:1]:8080", "[0:0:0:0:0:0:0:1]:8080");
     }
 }
+
+#[cfg(feature = "verif-hooks")]
+pub mod verif {
+    pub use super::Proxy;
+    pub use super::get_request_addr;
+
+    pub fn recognize_http(method: &str, path: &str) -> Result<Proxy, anyhow::Error> {
+        super::recognize_http(method, path)
+    }
+}
